@@ -394,6 +394,35 @@ class DB:
         return [c for n, c in self.classes.items() if cls_template(n) == cls_t and not c.get('pattern')]
 
 
+def rename_names(db, suffix):
+    """append `suffix` to the name of every parameter and local variable (declarations and uses) of library functions"""
+    def walk(x):
+        if isinstance(x, dict):
+            if x.get('k') in ('param', 'local') and isinstance(x.get('name'), str) and x['name']:
+                x['name'] = x['name'] + suffix
+            for kk, v in list(x.items()):
+                if kk == 'vars' and isinstance(v, list):
+                    for d in v:
+                        if isinstance(d, dict) and isinstance(d.get('name'), str) and d['name']:
+                            d['name'] = d['name'] + suffix
+                if kk != 'fn':
+                    walk(v)
+        elif isinstance(x, list):
+            for y in x:
+                walk(y)
+    for f in db.fns.values():
+        if '/verif/' in f.loc:
+            continue        # drivers and fixtures are not the analysed program
+        for prm in f.params:
+            if isinstance(prm.get('name'), str) and prm['name']:
+                prm['name'] = prm['name'] + suffix
+        for b in f.blocks.values():
+            for e in b['events']:
+                walk(e)
+            if b.get('term'):
+                walk(b['term'])
+
+
 # --------------------------------------------------------------------------- pretty printer (debugging aid)
 
 def dump_fn(fn, out=None):
